@@ -313,7 +313,7 @@ Lemma c03_guard_parts : forall pkg fl fuel sd, c03_guard pkg fl fuel sd = true -
   embedded_names_fresh pkg fuel sd = true /\ accessor_fields_ok fl sd = true.
 Proof.
   intros pkg fl fuel sd H. unfold c03_guard in H.
-  do 4 (apply andb_true_iff in H; destruct H as [H ?]). repeat split; assumption.
+  do 5 (apply andb_true_iff in H; destruct H as [H ?]). repeat split; assumption.
 Qed.
 
 (* every entry below an embedded field of type t carries one of the names of t's closure *)
